@@ -400,6 +400,14 @@ func c12R3(c *Ctx) {
 				}
 			}
 		}
+		// the if-chain form: ipType == rpc.IPType_X
+		if be, ok := nd.(*ast.BinaryExpr); ok && be.Op == token.EQL {
+			for _, side := range []ast.Expr{be.X, be.Y} {
+				if o, ok := identObjSel(info, side).(*types.Const); ok && types.Identical(o.Type(), ipType.Type()) {
+					covered[o.Name()] = true
+				}
+			}
+		}
 		return true
 	})
 	var missing []string
@@ -579,7 +587,7 @@ func c12R5(c *Ctx) {
 		if !ok || len(as.Lhs) != 1 || len(as.Rhs) != 1 {
 			return true
 		}
-		src := exprString(as.Rhs[0])
+		src := derefString(fn, as.Rhs[0])
 		if !strings.Contains(src, ".Bandwidth.") {
 			return true
 		}
